@@ -236,15 +236,23 @@ def _with_line_budget(fn, budget):
                 raise _Budget()
         return tr
     old = sys.gettrace()
+    # a second, longer wall-clock cap covers hangs inside C code (a regular expression that backtracks
+    # exponentially produces no line events at all)
+    oldh = signal.signal(signal.SIGALRM, _alarm)
+    signal.setitimer(signal.ITIMER_REAL, 30.0)
     sys.settrace(tr)
     try:
         fn()
     except _Budget:
         return True, n[0]
+    except _Timeout:
+        return True, -1
     except BaseException:
         pass
     finally:
         sys.settrace(old)
+        signal.setitimer(signal.ITIMER_REAL, 0)
+        signal.signal(signal.SIGALRM, oldh)
     return False, n[0]
 
 
@@ -272,8 +280,9 @@ def guarded(out, what, fn, text_len, narrow, detail_ctx):
         over, n = _with_line_budget(fn, budget)
         if over:
             _HUNG.add(what)
-            out.fail("C14.non-termination", what, "%s did not finish within %d traced lines (%s)"
-                     % (what, budget, detail_ctx), narrow)
+            out.fail("C14.non-termination", what, "%s did not finish: %s (%s)" % (
+                what, "no progress for 30 s inside a C-level call" if n < 0 else "more than %d traced lines" % budget,
+                detail_ctx), narrow)
         else:
             out.probes["slow-case"] += 1
         return "timeout", None
